@@ -32,6 +32,10 @@ pub enum Case {
     /// as above, but the FIN was already queued by an earlier, abandoned attempt: a finish()
     /// future dropped by a timeout (via = 0), or tokio's AsyncWriteExt::shutdown (via = 1)
     FinishReissued { len: usize, block_data: bool, via: u8 },
+    /// the writer writes `pre` bytes and does not finish; then the connection ends by a close
+    /// on the reader's side (`reader_closes`) or on the writer's: the reader must never see a
+    /// clean end-of-stream - end-of-stream means the sender finished
+    Unfinished { pre: usize, reader_closes: bool },
 }
 
 #[derive(Serialize, Deserialize, Clone, Debug)]
@@ -67,7 +71,8 @@ pub fn gen_plan(seed: u64, index: usize, faulty: bool) -> Plan {
     }
     let bidi = rng.coin();
     let code = if rng.chance_pm(700) { CODES[index % CODES.len()] } else { rng.range(0, (1 << 62) - 1) };
-    let case = match rng.below(if faulty { 3 } else { 5 }) {
+    let case = match rng.below(if faulty { 3 } else { 6 }) {
+        5 => Case::Unfinished { pre: *rng.pick(&[0usize, 1, 100, 5000]), reader_closes: rng.chance_pm(700) },
         0 => Case::Reset { pre: *rng.pick(&[0usize, 0, 1, 100, 5000, 50_000]), finish_first: rng.chance_pm(300), settle_before_reset: rng.coin(), code },
         1 => Case::Stop { after: *rng.pick(&[0usize, 0, 1, 100, 3000]), first_part: *rng.pick(&[1usize, 100, 3000, 20_000]), second_part: *rng.pick(&[1usize, 100, 5000]), code },
         2 => Case::Finish { len: *rng.pick(&[0usize, 1, 1000, 70_000]) },
@@ -270,6 +275,28 @@ pub fn execute(plan: &Plan, trace: bool) -> Exec {
                     }
                 }
             }
+            Case::Unfinished { pre, reader_closes } => {
+                let data = pattern(plan.seed, pre);
+                let o2 = obs.clone();
+                let rt = tokio::spawn(async move {
+                    read_to_end(&mut reader, &o2, None, rx).await;
+                    // whatever ended the first read loop, a further read says the same kind of thing
+                    let mut b = [0u8; 16];
+                    let again = reader.read(&mut b).await;
+                    o2.lock().unwrap().notes.push(format!("read-again: {again:?}"));
+                });
+                if pre > 0 {
+                    if let Err(e) = writer.write_all(&data).await {
+                        obs.lock().unwrap().writer_errors.push(("write_all".into(), e));
+                    }
+                }
+                net.quiesce(Duration::from_millis(50), Duration::from_secs(10)).await;
+                tokio::time::sleep(Duration::from_millis(100)).await;
+                let reader_is_opener = plan.back;
+                let closer = if reader_closes == reader_is_opener { &opener } else { &acceptor };
+                closer.close(VarInt::from_u32(9), b"done");
+                let _ = tokio::time::timeout(Duration::from_secs(60), rt).await;
+            }
             Case::Finish { len } => {
                 let data = pattern(plan.seed, len);
                 let o2 = obs.clone();
@@ -459,6 +486,27 @@ pub fn execute(plan: &Plan, trace: bool) -> Exec {
             ex.probe("stop_seen", 1);
             ex.fault("stream_stopped_mid_transfer", 1);
         }
+        Case::Unfinished { pre, reader_closes } => {
+            let data = pattern(plan.seed, *pre);
+            if !data.starts_with(&o.reader_bytes) {
+                ex.violation("C06/unfinished-bytes", format!("{role}: the reader saw bytes that are not a prefix of what was written ({} bytes read)", o.reader_bytes.len()));
+                return ex;
+            }
+            let who = if *reader_closes { "the reader's own side" } else { "the writer's side" };
+            match &o.reader_end {
+                Some(Ok(())) => ex.violation(
+                    "C06/end-of-stream-without-finish",
+                    format!("{role}: the writer wrote {pre} bytes and never finished; after {who} closed the connection the reader got a clean end-of-stream after {} bytes", o.reader_bytes.len()),
+                ),
+                Some(Err(_)) => {
+                    if let Some(n) = o.notes.iter().find(|n| n.starts_with("read-again: Ok")) {
+                        ex.violation("C06/end-of-stream-without-finish", format!("{role}: after the connection was closed by {who} a further read on the unfinished stream returned {n}"));
+                    }
+                }
+                None => ex.violation("C06/read-hangs", format!("{role}: read still pending 60 s after {who} closed the connection")),
+            }
+            ex.fault("connection_closed_under_an_unfinished_stream", 1);
+        }
         Case::Finish { len } => {
             let data = pattern(plan.seed, *len);
             if o.reader_bytes != data || !matches!(o.reader_end, Some(Ok(()))) {
@@ -537,7 +585,7 @@ pub fn def() -> PropertyDef {
     PropertyDef {
         id: "C06",
         scenarios: vec![Box::new(Typed(C06E2E { faulty: false })), Box::new(Typed(C06E2E { faulty: true }))],
-        rule: "Each run: real client and server, one stream in a generated role (client/server-opened x uni/bidi x direction), codes cycling through the boundaries of every varint length (0, 63, 64, 16383, 16384, 2^30-1, 2^30, 2^62-2, 2^62-1) and random 62-bit values, one of four histories: (reset) write 0..50 kB, optionally begin finishing, optionally let the network settle, reset(c) — the reader must see a prefix of the written bytes and then Reset(c), or, only if finishing began first, possibly everything and end-of-stream; (stop) the reader reads 0..3000 bytes and stops with c while the writer writes — every writer error must be Stopped(c), and once the stop has certainly arrived a further write, stopped(), finish(), stopped() again, another write and - a few round trips later - stopped(), finish() and write once more must all report Stopped(c); (finish) all bytes then end-of-stream, finish Ok, stopped() afterwards = Closed; (finish under partition, clean batch only) with the data or the acknowledgement direction blocked finish() must still be pending after 10 s simulated and complete Ok after the heal - also when the FIN had already been queued by an earlier finish() future that was dropped by a timeout, or by tokio's AsyncWriteExt::shutdown. Fault batch: loss / duplication / reordering. Non-trivial = the history ran to its observation point (and a fault fired in the fault batch); distinct = distinct plan hashes.",
+        rule: "Each run: real client and server, one stream in a generated role (client/server-opened x uni/bidi x direction), codes cycling through the boundaries of every varint length (0, 63, 64, 16383, 16384, 2^30-1, 2^30, 2^62-2, 2^62-1) and random 62-bit values, one of four histories: (reset) write 0..50 kB, optionally begin finishing, optionally let the network settle, reset(c) — the reader must see a prefix of the written bytes and then Reset(c), or, only if finishing began first, possibly everything and end-of-stream; (stop) the reader reads 0..3000 bytes and stops with c while the writer writes — every writer error must be Stopped(c), and once the stop has certainly arrived a further write, stopped(), finish(), stopped() again, another write and - a few round trips later - stopped(), finish() and write once more must all report Stopped(c); (finish) all bytes then end-of-stream, finish Ok, stopped() afterwards = Closed; (unfinished, clean batch only) the writer writes 0..5000 bytes and never finishes, then the connection is closed on the reader's or on the writer's side: the reader - in a pending read and in a later one - must get an error, never a clean end-of-stream; (finish under partition, clean batch only) with the data or the acknowledgement direction blocked finish() must still be pending after 10 s simulated and complete Ok after the heal - also when the FIN had already been queued by an earlier finish() future that was dropped by a timeout, or by tokio's AsyncWriteExt::shutdown. Fault batch: loss / duplication / reordering. Non-trivial = the history ran to its observation point (and a fault fired in the fault batch); distinct = distinct plan hashes.",
         assumptions: vec![
             "after stop the model allows every outcome QUIC allows for writes racing the signal; only writes issued after network quiescence are required to fail",
             "quinn/rustls/tokio executed for real but trusted; current-thread runtime",
